@@ -348,6 +348,47 @@ def check(ctx, a):
     return nt
 
 
+def raw_of(a):
+    """(decwork decoder name, bytes) of the well-formed response for value tree a (used by C12's mutator)."""
+    d = a["dec"]
+    if d == "produce":
+        v = min(a["version"], 2)
+        return ("produce_v2" if v >= 2 else "produce_v0"), rp.r_produce(a["corr"], [(t, [(p, e, o, lat) for p, (e, o, lat) in ps]) for t, ps in a["tree"]], version=2 if v >= 2 else 0, throttle=a["throttle"])
+    if d == "fetch":
+        v = 2 if a["version"] >= 2 else 0
+        return "fetch_v%d" % v, rp.r_fetch(a["corr"], [(t, [(p, e, hw, rp.encode_message_set(ms)) for p, (e, hw, ms) in ps]) for t, ps in a["tree"]], version=v, throttle=a["throttle"])
+    if d == "msgset":
+        return "message_set", rp.encode_message_set(a["entries"])
+    if d == "offsets":
+        return "offsets", rp.r_list_offsets(a["corr"], [(t, [(p, e, offs) for p, (e, offs) in ps]) for t, ps in a["tree"]])
+    if d == "metadata":
+        return "metadata", rp.r_metadata(a["corr"], [tuple(b) for b in a["brokers"]], a["topics"])
+    if d == "find_coordinator":
+        return "find_coordinator", rp.r_find_coordinator(a["corr"], a["error"], a["node"], a["host"], a["port"])
+    if d == "offset_commit":
+        return "offset_commit", rp.r_offset_commit(a["corr"], [(t, [(p, e) for p, e in ps]) for t, ps in a["tree"]])
+    if d == "offset_fetch":
+        return "offset_fetch", rp.r_offset_fetch(a["corr"], [(t, [(p, o, m, e) for p, (o, m, e) in ps]) for t, ps in a["tree"]])
+    if d == "join_group":
+        return "join_group", rp.r_join_group(a["corr"], a["error"], a["generation"], a["protocol"], a["leader"], a["member"], a["members"])
+    if d == "sync_group":
+        return "sync_group", rp.r_sync_group(a["corr"], a["error"], a["assignment"])
+    if d == "heartbeat":
+        return "heartbeat", rp.r_heartbeat(a["corr"], a["error"])
+    if d == "leave_group":
+        return "leave_group", rp.r_leave_group(a["corr"], a["error"])
+    if d == "api_versions":
+        return "api_versions", rp.r_api_versions(a["corr"], a["error"], a["versions"])
+    if d == "subscription":
+        return "subscription", rp.encode_subscription(a["topics"], a["user_data"], a["version"])
+    if d == "assignment":
+        return "assignment", rp.encode_assignment(a["assignment"], a["user_data"], 0)
+    raise KeyError(d)
+
+
+VALID_RESPONSE = st.one_of(*[s() for n, s in STRATS if n != "roundtrip"])
+
+
 def shard(ctx):
     for i, (name, strat) in enumerate(STRATS):
         per_q, per_t = (2000, 60000) if name in ("msgset", "roundtrip") else (400, 10000)
